@@ -43,11 +43,30 @@ def isTerminalBody : Rule → Bool
   | .prec _ _ a => isTerminalBody a
   | _ => false
 
-/-- How a reference to rule `x` shows up: `none` = expanded in place, `some (kind, named)` = a node. -/
+/-- How a reference to rule `x` shows up: `none` = expanded in place, `some (kind, named)` = a node.
+An inlined rule is always expanded in place (an alias around it is handed down to the nodes its body
+produces); any other rule under an alias becomes a node of the alias' kind. -/
 def nodeKind (g : Grammar) (c : MCtx) (x : String) : Option (String × Bool) :=
+  if g.inline.contains x then none else
   match c.alias with
   | some a => some a
   | none => if g.hidden x then none else some (x, true)
+
+/-- Directly nested metadata wrappers are merged by the grammar reader (`metadata_with` in
+crates/generate/src/rules.rs): of two `FIELD`s with only other wrappers between them the OUTER one
+wins.  `stripField` removes the inner ones. -/
+def stripField : Rule → Rule
+  | .field _ a => stripField a
+  | .alias v n a => .alias v n (stripField a)
+  | .prec k v a => .prec k v (stripField a)
+  | r => r
+
+/-- the same for directly nested `ALIAS`es -/
+def stripAlias : Rule → Rule
+  | .alias _ _ a => stripAlias a
+  | .field n a => .field n (stripAlias a)
+  | .prec k v a => .prec k v (stripAlias a)
+  | r => r
 
 /-- The leaf a visible terminal produces under a context. -/
 def leafFor (c : MCtx) (k : String) (named : Bool) : VNode :=
@@ -75,12 +94,12 @@ mutual
     | repNil {a c} : Matches g (.rep a) c []
     | repCons {a c xs ys} : Matches g a c xs → Matches g (.rep a) c ys → Matches g (.rep a) c (xs ++ ys)
     | rep1 {a c xs ys} : Matches g a c xs → Matches g (.rep a) c ys → Matches g (.rep1 a) c (xs ++ ys)
-    | field {a c n xs} : Matches g a { c with field := some n } xs → Matches g (.field n a) c xs
-    | alias {a c v n xs} : Matches g a { c with alias := some (v, n) } xs → Matches g (.alias v n a) c xs
+    | field {a c n xs} : Matches g (stripField a) { c with field := some n } xs → Matches g (.field n a) c xs
+    | alias {a c v n xs} : Matches g (stripAlias a) { c with alias := some (v, n) } xs → Matches g (.alias v n a) c xs
     | prec {a c k v xs} : Matches g a c xs → Matches g (.prec k v a) c xs
-    /-- a hidden rule is expanded in place; the enclosing field is inherited -/
+    /-- a hidden rule is expanded in place; the enclosing field (and, for inlined rules, alias) is inherited -/
     | symHidden {c x b xs} : g.body x = some b → nodeKind g c x = none →
-        Matches g b { field := c.field, alias := none } xs → Matches g (.sym x) c xs
+        Matches g b c xs → Matches g (.sym x) c xs
     /-- a hidden rule that is itself a token produces no node -/
     | symHiddenToken {c x b} : g.body x = some b → nodeKind g c x = none → isTerminalBody b = true →
         Matches g (.sym x) c []
@@ -149,8 +168,8 @@ mutual
         cs :: dedupLen ((matchRule g f a c cs).flatMap fun rem =>
           if rem.length < cs.length then matchRule g f (.rep a) c rem else [])
       | .rep1 a => dedupLen ((matchRule g f a c cs).flatMap fun rem => matchRule g f (.rep a) c rem)
-      | .field n a => matchRule g f a { c with field := some n } cs
-      | .alias v n a => matchRule g f a { c with alias := some (v, n) } cs
+      | .field n a => matchRule g f (stripField a) { c with field := some n } cs
+      | .alias v n a => matchRule g f (stripAlias a) { c with alias := some (v, n) } cs
       | .prec _ _ a => matchRule g f a c cs
       | .sym x =>
         match g.body x with
@@ -164,7 +183,7 @@ mutual
         | some b =>
           match nodeKind g c x with
           | none =>
-            (if isTerminalBody b then [cs] else []) ++ matchRule g f b { field := c.field, alias := none } cs
+            (if isTerminalBody b then [cs] else []) ++ matchRule g f b c cs
           | some (k, n) =>
             match cs with
             | .mk k' n' false f' kids :: rest =>
